@@ -577,8 +577,18 @@ def family(rng=None, n_random=40, per_template=None, rotation=0):
                 out.append(_cells(cn, gen.formula(cn), cached=rng.random() < 0.75))
         return out
 
+    def o_space():
+        return {"name": "O", "bases": [], "formula": None, "refs": [], "cells": [_cells("c", "lambda: 2")], "spaces": []}
+
+    def model(spaces):
+        return {"name": "Scope", "profile": "scope",
+                "grefs": [_ref("gn", {"lit": 3}), _ref("abs", {"lit": 2}),
+                          _ref("mref", {"obj": "O"}), _ref("mcell", {"obj": "O.c"})],
+                "spaces": [o_space()] + spaces}
+
+    res = []
     qs = []
-    spaces = [{"name": "O", "bases": [], "formula": None, "refs": [], "cells": [_cells("c", "lambda: 2")], "spaces": []}]
+    spaces = []
     ki = 0
     n_each = max(n_random // 15, 1) if n_random else 0
     for nk, other in kinds_s:
@@ -594,6 +604,11 @@ def family(rng=None, n_random=40, per_template=None, rotation=0):
                 {"name": "type", "bases": [], "formula": None, "refs": [], "cells": [_cells("c", "lambda: 3")], "spaces": []}]})
         for c in cells:
             qs.append(_q([{"attr": nm}], c["name"]))
+        if ki % 5 == 0:
+            # several models rather than one: they are exported in parallel
+            res.append(("static-%d" % (ki // 5), model(spaces), qs))
+            spaces, qs = [], []
+    assert not spaces
     p1 = [{"attr": "P"}, {"item": [3, 1], "via": "call"}]
     p2 = [{"attr": "P"}, {"item": [1], "via": "getitem"}]
     pch = []
@@ -620,10 +635,5 @@ def family(rng=None, n_random=40, per_template=None, rotation=0):
         qs.append(_q(p1 if k % 2 else p2, c["name"]))
     spaces.append({"name": "P", "bases": [], "formula": [["x", None], ["id", 2]], "refs": [], "cells": pcells,
                    "spaces": pch})
-    desc = {
-        "name": "Scope", "profile": "scope",
-        "grefs": [_ref("gn", {"lit": 3}), _ref("abs", {"lit": 2}),
-                  _ref("mref", {"obj": "O"}), _ref("mcell", {"obj": "O.c"})],
-        "spaces": spaces,
-    }
-    return [("scope", desc, qs)]
+    res.append(("items", model(spaces), qs))
+    return res
